@@ -107,8 +107,7 @@ Lemma transparent_view f sr :
   transparent f = true -> post_view f sr = inr (sr_errhdr sr, CStream (sr_ok sr) (sr_frames sr) TClean).
 Proof.
   unfold transparent, post_view. destruct f as [n s o e b h]; cbn.
-  destruct n, o, e, b, h; cbn; try discriminate. intro H. rewrite H.
-  now rewrite orb_false_r.
+  destruct n, o, e, b, h; cbn; try discriminate; intro H; rewrite H; now rewrite orb_false_r.
 Qed.
 
 Definition body_curs (b : cbody) : list nat := match b with CStream _ fs _ => curs fs | CGarbage => [] end.
@@ -124,7 +123,7 @@ Qed.
 Lemma view_curs f sr eh b : post_view f sr = inr (eh, b) -> incl (body_curs b) (curs (sr_frames sr)).
 Proof.
   unfold post_view. destruct (f_net f); try discriminate. destruct (f_over f); try discriminate.
-  destruct (f_enc f); try discriminate. destruct (status_2xx (eff_status f)); try discriminate.
+  destruct (enc_accepts (f_enc f)); try discriminate. destruct (status_2xx (eff_status f)); try discriminate.
   intro H; inversion H; subst. apply edit_curs.
 Qed.
 
@@ -740,12 +739,12 @@ Lemma parse_ok_good fx tid f sr eh b l p :
   transparent f = true /\ sr_ok sr = true /\ sr_errhdr sr = false /\ b = CStream true (sr_frames sr) TClean.
 Proof.
   unfold post_view, transparent, lossy. destruct f as [n st o e bf h]; cbn [f_net f_over f_enc f_body f_errhdr f_status eff_status].
-  destruct n; try discriminate. destruct o; try discriminate. destruct e; try discriminate.
-  destruct (status_2xx (eff_status {| f_net := NetOk; f_status := st; f_over := false; f_enc := EncKeep; f_body := bf; f_errhdr := h |})) eqn:Est;
+  destruct n; try discriminate. destruct o; try discriminate. destruct (enc_accepts e) eqn:Eacc; try discriminate.
+  destruct (status_2xx (eff_status {| f_net := NetOk; f_status := st; f_over := false; f_enc := e; f_body := bf; f_errhdr := h |})) eqn:Est;
     [|discriminate].
   intros Hv Hp Heh Htl Hlo. inversion Hv; subst; clear Hv.
   apply orb_false_iff in H0 as [Hse Hh]. subst h. unfold eff_status in Est. cbn [f_status] in Est.
-  cbn [net_eqb encf_eqb negb andb].
+  cbn [net_eqb negb andb].
   destruct bf; cbn [edit] in Hp, Htl |- *; cbn in Hlo; try discriminate.
   - destruct (sr_ok sr); [|discriminate]. auto.
   - cbn [tail_of] in Htl. congruence.
@@ -908,11 +907,18 @@ Qed.
 Lemma lossy_nocurs f sr eh b : lossy f = true -> post_view f sr = inr (eh, b) -> body_curs b = [].
 Proof.
   unfold lossy, post_view. destruct (f_net f); try discriminate. destruct (f_over f); try discriminate.
-  destruct (f_enc f); try discriminate. destruct (status_2xx (eff_status f)); try discriminate.
+  destruct (enc_accepts (f_enc f)); try discriminate. destruct (status_2xx (eff_status f)); try discriminate.
   intros Hl Hv. inversion Hv; subst. destruct (f_body f); try discriminate; cbn [edit body_curs].
   - induction (sr_frames sr) as [|g fs IH]; [reflexivity|]. cbn [filter].
     destruct g as [m|ty|rows v um [c|] call]; cbn [has_cur negb]; try (rewrite curs_cons, IH; reflexivity). exact IH.
   - apply curs_strip.
+Qed.
+
+Lemma view_reaches f sr eh b : post_view f sr = inr (eh, b) -> reaches_parser f = true.
+Proof.
+  unfold post_view, reaches_parser. destruct (f_net f); try discriminate. destruct (f_over f); try discriminate.
+  destruct (enc_accepts (f_enc f)); try discriminate. destruct (status_2xx (eff_status f)); try discriminate.
+  reflexivity.
 Qed.
 
 Lemma rej_parsed fx tid ex res i w init cur call cancel x w' pr eh b l p :
@@ -926,7 +932,7 @@ Proof.
   destruct (Hv eh b eq_refl) as (_ & (sr & Hpv & _) & _).
   pose proof (parse_ok_class _ _ _ _ _ _ _ _ Hpv Hp Heh Htl) as Hc.
   unfold rej_post. destruct (transparent (p_fault pr)); [now rewrite orb_true_r|].
-  cbn in Hc. rewrite Hc, Hcan. rewrite orb_false_r. cbn [andb].
+  cbn in Hc. rewrite Hc, Hcan, (view_reaches _ _ _ _ Hpv). rewrite orb_false_r. cbn [andb].
   destruct Hside as [->|[->|Hs]]; [now rewrite orb_true_r|now rewrite !orb_true_r|].
   apply is_some_true in Hs as [t Ht]. pose proof (parse_stream_tok _ _ _ _ _ _ Hp Ht) as Hin.
   rewrite (lossy_nocurs _ _ _ _ Hc Hpv) in Hin. destruct Hin.
@@ -1205,15 +1211,34 @@ Qed.
 
 Lemma reject_rel i r p :
   In r (smodel i) -> In p (o_posts r) -> transparent (p_fault p) = false ->
-  (lossy (p_fault p) = false \/ (i_exchange i = true /\ p_cancel p = false)) ->
+  (lossy (p_fault p) = false \/ reaches_parser (p_fault p) = false
+   \/ (i_exchange i = true /\ p_cancel p = false)) ->
   is_err (o_res r) = true.
 Proof.
   intros Hr Hp Ht Hside. pose proof (reject_model true i) as H. unfold reject_ok in H.
   rewrite forallb_forall in H. specialize (H r Hr). unfold rej_one in H. rewrite forallb_forall in H.
   specialize (H p Hp). unfold rej_post in H. rewrite Ht, orb_false_r in H.
   destruct (is_err (o_res r)); [reflexivity|]. cbn in H.
-  destruct Hside as [Hl|[Hex Hc]]; [now rewrite Hl in H|]. rewrite Hex, Hc in H. now rewrite andb_false_r in H.
+  destruct Hside as [Hl|[Hl|[Hex Hc]]]; [now rewrite Hl in H|now rewrite Hl, andb_false_r in H|].
+  rewrite Hex, Hc in H. now rewrite andb_false_r in H.
 Qed.
+
+(* a coding the client does not support, or that the body is not in, on the header the
+   client reads - standard, or custom when the standard one is absent - is refused *)
+Lemma encoding_refused_rel i r p :
+  In r (smodel i) -> In p (o_posts r) -> enc_accepts (f_enc (p_fault p)) = false ->
+  is_err (o_res r) = true.
+Proof.
+  intros Hr Hp He. eapply reject_rel; eauto.
+  - unfold transparent. rewrite He. now rewrite andb_false_r.
+  - right; left. unfold reaches_parser. rewrite He. now rewrite andb_false_r.
+Qed.
+
+Lemma enc_accepts_spec e :
+  enc_accepts e = true <->
+  (enc_std e = COk \/ (enc_std e = CAbsent /\ (enc_custom e = COk \/ enc_custom e = CAbsent))).
+Proof. destruct e; cbn; split; intro H; try discriminate; auto;
+  destruct H as [H|[H1 [H|H]]]; discriminate. Qed.
 
 (* ------------------------------------------------------------ witnesses *)
 Definition w_turn (v : Z) : turn := {| t_logs := []; t_act := AEmit; t_val := v; t_meta := [] |}.
